@@ -291,12 +291,29 @@ def run_sharded(work, binp, test, nshards, env_for, timeout=1800):
         cmd = [binp, "-test.run", "^%s$" % test, "-test.timeout", "%ds" % timeout, "-test.count", "1"]
         procs.append((subprocess.Popen(cmd, cwd=REPO, env=e, stdout=out, stderr=subprocess.STDOUT), out, i))
     bad = []
+    deadline = time.time() + timeout + 60
+    cpu = {}
     for p, out, i in procs:
-        try:
-            rc = p.wait(timeout=timeout + 60)
-        except subprocess.TimeoutExpired:
-            p.kill()
-            rc = -9
+        rc = None
+        while rc is None:
+            try:
+                rc = p.wait(timeout=30)
+            except subprocess.TimeoutExpired:
+                # a harness process that has used no CPU at all for 5 minutes is stuck (a goroutine waiting for a mutex
+                # that is never released stops the virtual clock): no verdict can come from it
+                try:
+                    with open("/proc/%d/stat" % p.pid) as fh:
+                        f = fh.read().rsplit(")", 1)[1].split()
+                    used = int(f[11]) + int(f[12])
+                except (OSError, IndexError, ValueError):
+                    used = -1
+                last = cpu.get(p.pid)
+                if last is None or last[0] != used:
+                    cpu[p.pid] = (used, time.time())
+                elif time.time() - last[1] > 300 or time.time() > deadline:
+                    p.kill()
+                    p.wait()
+                    rc = -9
         out.close()
         if rc != 0:
             with open(out.name) as fh:
